@@ -224,7 +224,7 @@ PROPS = {
               "delete and re-create them, and publish; endpoints answer 204 only at the URL the subscription is configured with at that moment (503 elsewhere, so a push racing a change is retried); "
               "oracle: after every publish each live push subscription receives the message at its CURRENT endpoint within 4 s (3-of-3); non-trivial there = a publish after an endpoint switch"),
         assumptions=["real clock (the pusher's fast/slow threshold and the HTTP round trip are wall-clock); retry policy 400-500 ms (the lease must comfortably exceed the latency of the ack transaction, or a slow ack legitimately leads to a second push)", "bounded waits with 3-of-3 confirmation for the 'pushed again' / 'pushed at all' clauses"],
-        quick=dict(checks=30, timeout=900),
-        thorough=dict(checks=120, shards=8, timeout=3000),
+        quick=dict(checks=30, timeout=900, shrinktime="120s"),
+        thorough=dict(checks=120, shards=8, timeout=3000, shrinktime="120s"),
     ),
 }
